@@ -243,7 +243,8 @@ func (t *QCPendingTree) insertOrphan(node *ProposalNode) error {
 		t.OrphanList.PushBack(node)
 		return nil
 	}
-	// 遍历整个Sli，查看是否能够挂上
+	// 遍历整个Sli，查看是否能够挂上: node可能同时是多个头节点的父亲, 且node的父亲可能在另一棵子树中
+	var parent *ProposalNode
 	ptr := t.OrphanList.Front()
 	for ptr != nil {
 		curPtr := ptr
@@ -257,19 +258,20 @@ func (t *QCPendingTree) insertOrphan(node *ProposalNode) error {
 			t.OrphanList.Remove(curPtr)
 			continue
 		}
-		// 查看头节点是否是node的儿子, 直接在头部插入
+		// 查看头节点是否是node的儿子, 挂在node下面
 		if bytes.Equal(n.In.GetParentProposalId(), node.In.GetProposalId()) {
 			node.Sons = append(node.Sons, n)
 			t.OrphanList.Remove(curPtr)
-			t.OrphanList.PushBack(node)
-			return nil
+			continue
 		}
 		// 否则遍历该树试图挂在子树上面
-		parent := DFSQuery(n, node.In.GetParentProposalId())
-		if parent != nil {
-			parent.Sons = append(parent.Sons, node)
-			return nil
+		if parent == nil {
+			parent = DFSQuery(n, node.In.GetParentProposalId())
 		}
+	}
+	if parent != nil {
+		parent.Sons = append(parent.Sons, node)
+		return nil
 	}
 	// 没有可以挂的地方，则直接append
 	t.OrphanList.PushBack(node)
